@@ -240,6 +240,25 @@ def setUsrFieldIL (σ : MState) (args : List ILPure) (vs : List Val) : Except St
   | [_, some n, _], [_, _, v] => writeUsr σ n v
   | _, _ => .error (.undef "set_usr_field: argument list")
 
+/-! `get_usr_field(bundle, FIELD)` is read at the same specification level (TRUSTED, not verified against the compiled
+  body of `hex_get_usr_field`, an `extract64` from USR through `REGFIELD`): it returns the 32-bit content of the
+  abstract cell of the field — what this instruction wrote to it (`set_usr_field`), else its value before the
+  instruction (the reading the operand slots of read-write registers have, `readReg`). -/
+
+/-- the content of the abstract cell of `field` -/
+def readUsr (σ : MState) (field : String) : Nat :=
+  if σ.written (usrCell field) then σ.new (usrCell field) else σ.cur (usrCell field)
+
+/-- the value `get_usr_field(bundle, field)` returns (`uint32_t`) -/
+def usrVal (σ : MState) (field : String) : BitVec 32 := BitVec.ofNat 32 (readUsr σ field)
+
+/-- `hex_get_usr_field(bundle, FIELD)`: the return value goes to `ret_val` (64 bit, like the `set_return_val` of a
+    compiled body: `CAST(64, IL_FALSE, …)`) -/
+def getUsrFieldIL (σ : MState) (args : List ILPure) : Except Stuck MState :=
+  match args.map extName with
+  | [_, some n] => .ok { σ with locals := setLocal σ.locals "ret_val" (.bv 64 ((usrVal σ n).setWidth 64)) }
+  | _ => .error (.undef "get_usr_field: argument list")
+
 /-- Compiled sub-routine bodies: name ↦ (parameter names, body). -/
 abbrev SubEnv := List (String × (List String × ILEffect))
 
@@ -294,10 +313,13 @@ def execIL (ms : MacroSem) (subs : SubEnv) : Nat → ILEffect → MState → Exc
           | none =>
               -- no compiled body supplied: the specification-level routines
               if f == "hex_set_usr_field" then setUsrFieldIL σ args vs
+              else if f == "hex_get_usr_field" then getUsrFieldIL σ args
               else .error (.undef f)
         else if f == "HEX_STORE_SLOT_CANCELLED" then
           .ok { σ with locals := setLocal σ.locals "$slot_cancelled" (.bool true) }
         else if f == "HEX_GET_NPC" then
+          -- `get_npc(pkt)`: specification-level reading (TRUSTED), the address behind the packet, taken as the
+          -- packet address + 4 on both sides (`CSemH.lean: specCallC`)
           .ok { σ with locals := setLocal σ.locals "ret_val" (.bv 64 (BitVec.ofNat 64 (σ.pktAddr + 4))) }
         else .error (.undef f)
 def execSeq (ms : MacroSem) (subs : SubEnv) : Nat → List ILEffect → MState → Except Stuck MState
